@@ -458,6 +458,12 @@ def gen_tuples(fam, tier):
                 out.append(('nat_const_ineq', Not(Eq(t1, t2)), []))
                 out.append(('nat_const_less_eq', kt.less_eq(NatType)(t1, t2), []))
                 out.append(('nat_const_less', kt.less(NatType)(t1, t2), []))
+        # the same goals over numerals of another type: eval must not claim what the (nat) expansion does not prove
+        for a_ in range(4):
+            for b_ in range(4):
+                out.append(('nat_const_ineq', Not(Eq(Int(a_), Int(b_))), []))
+                out.append(('nat_const_less_eq', kt.less_eq(IntType)(Int(a_), Int(b_)), []))
+                out.append(('nat_const_less', kt.less(IntType)(Int(a_), Int(b_)), []))
     elif fam == 'int':
         import kernel.term as kt
         nums = [Int(k) for k in (-2, -1, 0, 1, 2, 3)]
